@@ -84,7 +84,9 @@ impl ConfigResolver<'_> {
                 if self.opt.no_editorconfig {
                     Ok(self.default_configuration)
                 } else {
-                    editorconfig::parse(self.default_configuration, path)
+                    // Command line options take priority over `.editorconfig`, as they do over `stylua.toml`
+                    editorconfig::parse(Config::default(), path)
+                        .map(|config| load_overrides(config, self.opt))
                         .context("could not parse editorconfig")
                 }
                 #[cfg(not(feature = "editorconfig"))]
@@ -110,7 +112,8 @@ impl ConfigResolver<'_> {
                     if self.opt.no_editorconfig {
                         Ok(self.default_configuration)
                     } else {
-                        editorconfig::parse(self.default_configuration, &PathBuf::from("*.lua"))
+                        editorconfig::parse(Config::default(), &PathBuf::from("*.lua"))
+                            .map(|config| load_overrides(config, self.opt))
                             .context("could not parse editorconfig")
                     }
                     #[cfg(not(feature = "editorconfig"))]
